@@ -1734,7 +1734,8 @@ sf_read_raw		(SNDFILE *sndfile, void *ptr, sf_count_t bytes)
 
 	count = psf_fread (ptr, 1, bytes, psf) ;
 
-	if (psf->read_current + count / blockwidth <= psf->sf.frames)
+	/* Round up so that bytes following the last frame (pad bytes, trailing chunks) are never returned as audio. */
+	if (psf->read_current + (count + blockwidth - 1) / blockwidth <= psf->sf.frames)
 		psf->read_current += count / blockwidth ;
 	else
 	{	count = (psf->sf.frames - psf->read_current) * blockwidth ;
